@@ -5,7 +5,7 @@
    Fault model of the theorems: the 32-byte header is intact (the property speaks about damage "after its header");
    the header itself is NOT covered by the checksum -- see the note in tools/props/c12.py. *)
 From Coq Require Import NArith List Bool.
-From NV Require Import Base.Bytes Nvm.Crc Nvm.CrcProofs Nvm.Format Nvm.FormatProofs gen.NvmConsts.
+From NV Require Import Base.Bytes Nvm.Crc Nvm.CrcProofs Nvm.Format Nvm.FormatProofs Nvm.LoadPaths Nvm.LoadPathsProofs gen.NvmConsts gen.LoadPaths.
 Import ListNotations.
 Local Open Scope N_scope.
 
@@ -159,6 +159,35 @@ Example C12_malformed_sections_refused :
   forallb bytes_okb (partial_file :: leftover_files) = true /\
   forallb (fun f => match deserialize f with Refused => true | _ => false end) (partial_file :: leftover_files) = true.
 Proof. vm_compute. split; reflexivity. Qed.
+
+(* ---- every loading path, after any history ----
+   [loaders_ok]: regenerated on every run from the clang AST of run_standalone (nano_vm), client_thread (nano_vmd),
+   handle_init (nano_cop) and the main printed by write_wrapper_c: the module a session runs is nvm_deserialize of the
+   buffer received in THIS session (rule D1-D3 in tools/gen/gen_loadpaths.py), and the two paths that execute received
+   bytes call nvm_verify between loading and vm_init.  A cache or any other source of modules breaks this obligation;
+   tools/props/c12.py then finds the failing history on the real nano_vmd. *)
+Theorem C12_loaders_deserialize_received : loaders_ok = true.
+Proof. exact loaders_ok_true. Qed.
+Print Assumptions C12_loaders_deserialize_received.
+
+(* the verdict of a session depends only on the bytes of this request *)
+Theorem C12_verdict_is_deserialize : forall p history req, session_verdict p history req = Some (deserialize req).
+Proof. exact verdict_is_deserialize. Qed.
+Print Assumptions C12_verdict_is_deserialize.
+
+(* whatever the process loaded before -- including the intact file itself -- the damaged file is refused, on every path *)
+Theorem C12_damaged_refused_after_any_history : forall p history f f' m,
+  deserialize f = Loaded m -> bytes_ok f -> bytes_ok f' ->
+  firstn 32 f' = firstn 32 f -> burst_le32 (skipn 32 f) (skipn 32 f') ->
+  session_verdict p history f' = Some Refused.
+Proof. exact damaged_refused_after_any_history. Qed.
+Print Assumptions C12_damaged_refused_after_any_history.
+
+Theorem C12_truncated_refused_after_any_history : forall p history m n,
+  wf_module m -> (n < length (serialize m))%nat ->
+  session_verdict p history (firstn n (serialize m)) = Some Refused.
+Proof. exact truncated_refused_after_any_history. Qed.
+Print Assumptions C12_truncated_refused_after_any_history.
 
 (* ---- non-vacuity: the hypotheses are satisfiable and the positive theorems have instances ---- *)
 Example C12_witness_loads : deserialize (serialize witness_m) = Loaded (stamp witness_m).
